@@ -121,6 +121,8 @@ class C07(PropCheck):
                 if what:
                     out.append(Finding(l, f"op {k} `{name if k else ' '.join(name.split()[3:])}`: {what}", {"op_index": k}))
                     break
+        seen = {f.case for f in out}
+        out += [f for f in judge_defaults(triples, self.impl) if f.case not in seen]
         return out
 
 
